@@ -193,6 +193,24 @@ Theorem C16_compose_ens_table : forall (F : OF) (tol : F) (St : Type) meas zero_
 Proof. exact compose_ens_table. Qed.
 Print Assumptions C16_compose_ens_table.
 
+(* one state measured by an instrument of ANY outcome shape (_compose_qoperations_MProcess_State as coded): the ensemble carries the
+   instrument's outcome shape, so a composite instrument B o A (shape m1 ++ m2) keeps the multi-index structure ... *)
+Theorem C16_compose_state_table : forall (F : OF) (tol : F) (St : Type) (meas : St -> F -> pyres (list St * list F)) mshape mp_eps s (e' : ensemble F St),
+  compose_state F tol St meas mshape mp_eps s = PRet e' ->
+  exists ss pp, meas s (c1 F) = PRet (ss, pp) /\ ens_states e' = ss /\ md_new F tol pp mshape = PRet (ens_prob_dist e') /\
+                md_shape F (ens_prob_dist e') = map Z.of_nat mshape /\ length ss = length pp /\ ens_eps_zero e' = mp_eps.
+Proof. exact compose_state_table. Qed.
+Print Assumptions C16_compose_state_table.
+
+(* ... and both routes to a twice-measured ensemble — composite instrument on the state, or second instrument on the ensemble of the
+   first — give the same shape m1 ++ m2 *)
+Theorem C16_compose_routes_same_shape : forall (F : OF) (tol : F) (St : Type) measC measB zero_obj m1 m2 eps1 eps2 s (e1 e12 ec : ensemble F St),
+  compose_state F tol St measC (m1 ++ m2) eps1 s = PRet ec ->
+  compose_ens F tol St measB zero_obj m2 eps2 m1 e1 = PRet e12 ->
+  md_shape F (ens_prob_dist ec) = md_shape F (ens_prob_dist e12) /\ md_shape F (ens_prob_dist ec) = map Z.of_nat (m1 ++ m2).
+Proof. exact compose_routes_same_shape. Qed.
+Print Assumptions C16_compose_routes_same_shape.
+
 (* conditioning selects an order-preserving sub-grid: the increasing enumeration of the serial indices whose conditioned digits carry
    the conditioning values IS k' |-> rowmajor (fill fixed (digits of k' in the free shape)) — NumPy's boolean-mask / np.ix_ selection
    (translated code) and the model's slice indexed by the free multi-index are the same list, for every shape and assignment *)
